@@ -189,25 +189,27 @@ class ArchipelagoDataTree:
         if self.parallel:
             # Create the islands in parallel with Threads
             with ThreadPoolExecutor(max_workers=self.num_islands) as executor:
-                it = executor.map(create_island, seeds)
+                futures = [executor.submit(create_island, seed) for seed in seeds]
 
-                for island in tqdm(
-                    it,
+                # Note: the results are not retrieved from a lazy iterator
+                #       (e.g. 'executor.map'). An exception 'StopIteration' raised by a
+                #       model would be converted (or silently ended the iteration).
+                for future in tqdm(
+                    futures,
                     desc="Create islands",
                     total=self.num_islands,
                     disable=disable_bar,
                 ):
-                    self._pygmo_archi.push_back(island)
+                    self._pygmo_archi.push_back(future.result())
         else:
             # Create the islands sequentially
-            it = map(create_island, seeds)
-            for island in tqdm(
-                it,
+            for seed in tqdm(
+                seeds,
                 desc="Create islands",
                 total=self.num_islands,
                 disable=disable_bar,
             ):
-                self._pygmo_archi.push_back(island)
+                self._pygmo_archi.push_back(create_island(seed))
 
         stop_time = timer()
         logging.info("Create a new archipelago in %.2f s", stop_time - start_time)
